@@ -365,3 +365,67 @@ Check C07_stream_total :
   Forall cres_not_panicked (fst (run_calls (stream_new o k) cs)) /\
   NoPanicWorld.not_panicked (fst (stream_finish (snd (run_calls (stream_new o k) cs)))).
 Print Assumptions C07_stream_total.
+
+From LZ Require Import Model.Lzma2 Model.Xz Model.Stream Proofs.ProgLemmas Proofs.StreamLatch Proofs.FootprintCore Proofs.FootprintLzma Proofs.FootprintStream Proofs.FootprintLzma2 Proofs.FootprintXz.
+
+(* memory clause, ARBITRARY input: at every iteration of the decoding loop the window allocation is <= min(bytes produced, dictionary, memlimit), the staging buffer <= 20, tables <= TABS_MAX, total footprint <= FOOT_CONST + bytes produced   [proved as lzma_footprint_bounded in Proofs/FootprintLzma.v] *)
+Theorem C07_lzma_footprint_bounded :
+  forall (o : options) (w : io) (w0 : lw) (n : nat),
+  lzma_start o w = Some w0 ->
+  lzma_foot_ok (lzma_dict o w) (MemLimitRun.mem_of (o_memlimit o))
+    (SizeRules.res_state (iter_step n (pm_body FinishMode) w0)).
+Proof. exact (@lzma_footprint_bounded). Qed.
+Check C07_lzma_footprint_bounded :
+  forall (o : options) (w : io) (w0 : lw) (n : nat),
+  lzma_start o w = Some w0 ->
+  lzma_foot_ok (lzma_dict o w) (MemLimitRun.mem_of (o_memlimit o))
+    (SizeRules.res_state (iter_step n (pm_body FinishMode) w0)).
+Print Assumptions C07_lzma_footprint_bounded.
+
+(* a header announcing dictionary 2^32-1 and size 2^63 costs nothing: window allocation 0 after construction   [proved as fresh_decoder_allocates_nothing in Proofs/FootprintLzma.v] *)
+Theorem C07_fresh_decoder_allocates_nothing :
+  forall (props : props) (ml : option N) (dec : lzma_decoder) (k : snk),
+  lzma_decoder_new {| pr_props := props; pr_dict := 4294967295; pr_unpacked := Some 9223372036854775808 |} ml =
+  Done dec ->
+  win_alloc (WCirc (circ_new k (pr_dict (ld_params dec)) (ld_memlimit dec))) = 0 /\
+  ds_pib (ld_state dec) = [] /\ tabs_size (ds_tabs (ld_state dec)) <= TABS_MAX.
+Proof. exact (@fresh_decoder_allocates_nothing). Qed.
+Check C07_fresh_decoder_allocates_nothing :
+  forall (props : props) (ml : option N) (dec : lzma_decoder) (k : snk),
+  lzma_decoder_new {| pr_props := props; pr_dict := 4294967295; pr_unpacked := Some 9223372036854775808 |} ml =
+  Done dec ->
+  win_alloc (WCirc (circ_new k (pr_dict (ld_params dec)) (ld_memlimit dec))) = 0 /\
+  ds_pib (ld_state dec) = [] /\ tabs_size (ds_tabs (ld_state dec)) <= TABS_MAX.
+Print Assumptions C07_fresh_decoder_allocates_nothing.
+
+(* streaming decoder after any call sequence   [proved as stream_footprint_bounded in Proofs/FootprintStream.v] *)
+Theorem C07_stream_footprint_bounded :
+  forall (o : options) (k : snk) (cs : list call), stream_foot_ok (snd (run_calls (stream_new o k) cs)).
+Proof. exact (@stream_footprint_bounded). Qed.
+Check C07_stream_footprint_bounded :
+  forall (o : options) (k : snk) (cs : list call), stream_foot_ok (snd (run_calls (stream_new o k) cs)).
+Print Assumptions C07_stream_footprint_bounded.
+
+(* LZMA2: the accumulating buffer holds exactly the bytes since the last dictionary reset; chunk headers allocate nothing   [proved as lzma2_footprint_bounded in Proofs/FootprintLzma2.v] *)
+Theorem C07_lzma2_footprint_bounded :
+  forall (fuel : positive) (dec : lzma2_decoder) (io0 : io) (n : nat),
+  DsFoot (l2_state dec) -> w2_foot_ok (l2_res_state (iter_step n (l2_body fuel) (lzma2_start dec io0))).
+Proof. exact (@lzma2_footprint_bounded). Qed.
+Check C07_lzma2_footprint_bounded :
+  forall (fuel : positive) (dec : lzma2_decoder) (io0 : io) (n : nat),
+  DsFoot (l2_state dec) -> w2_foot_ok (l2_res_state (iter_step n (l2_body fuel) (lzma2_start dec io0))).
+Print Assumptions C07_lzma2_footprint_bounded.
+
+(* XZ: other declared packed / unpacked sizes give the same per-block buffer or an error - the buffer is the decoder output, declared sizes are only compared   [proved as block_decode_declared_sizes in Proofs/FootprintXz.v] *)
+Theorem C07_xz_declared_sizes_allocate_nothing :
+  forall (fuel : positive) (fs : list filter) (p1 u1 p2 u2 : option N) (w : io) (buf : list N) (w' : io),
+  block_decode fuel {| bh_filters := fs; bh_packed := p1; bh_unpacked := u1 |} w = (Done buf, w') ->
+  block_decode fuel {| bh_filters := fs; bh_packed := p2; bh_unpacked := u2 |} w = (Done buf, w') \/
+  block_decode fuel {| bh_filters := fs; bh_packed := p2; bh_unpacked := u2 |} w = (Failed EXz, w').
+Proof. exact (@block_decode_declared_sizes). Qed.
+Check C07_xz_declared_sizes_allocate_nothing :
+  forall (fuel : positive) (fs : list filter) (p1 u1 p2 u2 : option N) (w : io) (buf : list N) (w' : io),
+  block_decode fuel {| bh_filters := fs; bh_packed := p1; bh_unpacked := u1 |} w = (Done buf, w') ->
+  block_decode fuel {| bh_filters := fs; bh_packed := p2; bh_unpacked := u2 |} w = (Done buf, w') \/
+  block_decode fuel {| bh_filters := fs; bh_packed := p2; bh_unpacked := u2 |} w = (Failed EXz, w').
+Print Assumptions C07_xz_declared_sizes_allocate_nothing.
